@@ -66,7 +66,7 @@ def _frac(rng, edge_min):
 def generate(ctx):
     rng = ctx.rng
     # round-number grid cases first (small, readable witnesses)
-    n_grid = ctx.n(120, 4000)
+    n_grid = ctx.n(600, 4000)
     for _ in range(n_grid):
         L = [float(rng.randint(1, 8)) / rng.choice([1, 2]) for _ in range(3)]
         a = [rng.randint(0, 40) / 10.0 for _ in range(3)]
@@ -79,7 +79,7 @@ def generate(ctx):
                 ok = False
         if not ok:
             continue
-        yield {"kind": "pbc", "cls": "ortho-grid", "self": [a], "target": {"point": b},
+        yield {"kind": "pbc", "cls": "ortho-grid", "self": [a], "target": {"point": b}, "int_box": rng.random() < 0.6,
                "box": [[L[0], 0.0, 0.0], [0.0, L[1], 0.0], [0.0, 0.0, L[2]]],
                "shift_t": [rng.randint(-3, 3) for _ in range(3)], "shift_s": [rng.randint(-3, 3) for _ in range(3)]}
     # exact ties: binary-friendly boxes (rectangular and triclinic) and separations whose fractional coordinates
@@ -208,6 +208,7 @@ def evaluate(ctx, case):
     tgt = case["target"]
     box = case["box"]
     B = None if box is None else np.array([[float(c) for c in r] for r in box])
+    int_box = bool(box is not None and case.get("int_box") and all(float(c).is_integer() for r in box for c in r))
     res_self = _residue(self_pts)
     c_self = np.mean(np.array(self_pts), axis=0)
     if "point" in tgt:
@@ -224,6 +225,11 @@ def evaluate(ctx, case):
     Bro = None
     if B is not None:
         Bro = B.copy()
+        if int_box:
+            # the box as an INTEGER array (np.diag([3, 4, 5]), a nested list of ints): box lengths are box lengths
+            # whatever their dtype (seed C19-9: np.reciprocal on an integer array is integer division)
+            Bro = np.array(B, dtype=np.int64)
+            ctx.count("box:integer-dtype")
         Bro.flags.writeable = False
     nontrivial = B is not None and bool(np.any(v != 0.0))
     ctx.case(case, nontrivial=nontrivial)
